@@ -9,6 +9,7 @@ from hypothesis import strategies as st
 from pbt import netgen, oracles
 from pbt.core import Result, silence, pf_outcome, exc_sig
 from pbt.props.c07 import reachable_buses
+from pbt.props.c01 import SINGLE_SLACK_PROFILE
 
 ID = "C06"
 LEVEL = "exploration"
@@ -36,6 +37,24 @@ ALGOS = ["nr", "iwamoto_nr", "bfsw", "bfsw", "gs", "fdbx", "fdxb"]
 
 @st.composite
 def _case(draw, tier):
+    if draw(st.integers(0, 9)) == 0:
+        # networks on which the default configuration takes its "single slack" result shortcut (one ext_grid, no gens, no
+        # susceptance at any bus, no voltage dependent loads): compared with the configurations that do not take it
+        recipe = draw(netgen.grid(SINGLE_SLACK_PROFILE))
+        for e in recipe["el"]:
+            if e["t"] == "line":
+                e["c_nf_per_km"] = 0.0
+                e.pop("g_us_per_km", None)
+            if e["t"] == "trafo":
+                e["i0_percent"], e["pfe_kw"] = 0.0, 0.0
+            if e["t"] == "impedance":
+                for k in ("gf_pu", "bf_pu", "gt_pu", "bt_pu"):
+                    e.pop(k, None)
+        alts = [{"algorithm": "nr", "numba": True, "init": "auto", "lightsim2grid": draw(st.sampled_from([False, "auto"]))},
+                {"algorithm": draw(st.sampled_from(["nr", "bfsw", "gs", "fdbx"])), "numba": draw(st.booleans()), "init": "auto"}]
+        if alts[1]["algorithm"] == "nr":
+            alts[1]["lightsim2grid"] = False
+        return {"recipe": recipe, "alts": alts, "angles": draw(st.booleans()), "vdl": False}
     recipe = draw(netgen.grid(PROFILE))
     # optional second island with its own slack
     if draw(st.integers(0, 3)) == 0:
@@ -241,7 +260,9 @@ def check(case):
     sn = recipe.get("sn_mva", 1.0)
     angles = case["angles"]
     pyp = any(a["algorithm"] in ("gs", "fdbx", "fdxb") for a in case["alts"])
-    vdl = not pyp
+    vdl = (not pyp) and case.get("vdl", True)
+    if "vdl" in case:
+        res.label("single-slack-shortcut-network")
     ref, maps = netgen.build(recipe)
     try:
         run(ref, {"algorithm": "nr", "numba": False, "lightsim2grid": False, "init": "dc" if angles else "flat"}, sn, angles, vdl)
